@@ -544,6 +544,9 @@ class SymInt:
     if isinstance(o, float) and name is not None:
       # integer vs float constant: compare against the neighbouring integer (exact for integer-valued self)
       import math
+      if math.isnan(o): return name == 'ne'
+      if math.isinf(o):          # float('inf') as an "unbounded" sentinel (min(..., inf), x < inf): a constant answer
+        return {'lt': o > 0, 'le': o > 0, 'gt': o < 0, 'ge': o < 0, 'eq': False, 'ne': True}[name]
       if name == 'lt': return self._cmp(math.ceil(o), f)
       if name == 'le': return self._cmp(math.floor(o), f)
       if name == 'gt': return self._cmp(math.floor(o), f)
